@@ -278,14 +278,30 @@ def gen_cases(run, per_class):
                                           if n not in o}
             case = {"route": route, "cid": cid, "data": o, "allow": custom or r.random() < 0.15,
                     "opts": pick_opts(r, full=(i % 5 == 0))}
+            if r.random() < 0.12:
+                # the same input again after other objects of the class were built in the same process
+                between = []
+                for _ in range(2):
+                    try:
+                        ob = gen.obj(cid, optional_p=r.choice([0.0, 0.5, 1.0]))
+                        if r.random() < 0.5:
+                            inject_custom(gen, cid, ob)
+                        between.append({"route": "parse", "cid": cid, "data": ob, "allow": True})
+                    except (IndexError, ValueError, KeyError):
+                        pass
+                slots = {sl["name"] for sl in gen.classes[cid]["slots"]}
+                fixed_text = all(k in o for k in ("id", "created", "modified") if k in slots) and \
+                    not any((sl.get("default") or {}).get("d") in ("now", "uuid4") and sl["name"] not in o for sl in gen.classes[cid]["slots"])
+                case = dict(case, twice={"between": between, "compare_text": fixed_text})
             cases.append(case)
             # objects the library derives from that object's Python values (not from JSON-like data)
+            once = {k: v for k, v in case.items() if k != "twice"}
             if r.random() < 0.5:
                 how = r.choice(["deepcopy", "rebuild", "other-version", "new-version", "revoke", "copy", "pickle", "zone:" + r.choice(ZONES)])
-                cases.append(dict(case, derive=how, opts=CORE_OPTS[:4] + [r.choice(ALL_OPTS)]))
+                cases.append(dict(once, derive=how, opts=CORE_OPTS[:4] + [r.choice(ALL_OPTS)]))
             if i == 0:
                 # every class once with its timestamps given as aware datetimes of another zone
-                cases.append(dict(case, derive="zone:" + r.choice(ZONES), opts=CORE_OPTS[:2]))
+                cases.append(dict(once, derive="zone:" + r.choice(ZONES), opts=CORE_OPTS[:2]))
     return cases
 
 
@@ -494,7 +510,11 @@ def check(run):
         "parse() or the constructor, serialized under 9 sampled option sets (all 34 for every 5th object); objects derived from "
         "Python values (deepcopy, rebuilt from values, other spec version, new_version, every timestamp at every depth given as "
         "an aware datetime of another zone: fixed offsets and named zones), custom types registered in the worker up front "
-        "and custom types first looked up while unknown and registered afterwards; "
+        "and custom types first looked up while unknown and registered afterwards (also as members of a 2.0 observed-data "
+        "container); objects carrying one or both of two registered toplevel-property-extensions, each preceded in the same "
+        "process by an object of another combination; for the first option sets: the same text given to parse() as dictionary, "
+        "text stream, bytes and with the version named; fp_serialize and str() against serialize(); serialize() repeated on "
+        "the already serialized object with the same option names and other values against a never-serialized copy; "
         "non-trivial = the object was created" % per_class)
     model_ok = sc.translate_and_build(run, "Props/C01.v")
     variants = sc.detect_variants(run)
